@@ -196,24 +196,44 @@ impl PolicyCfg {
 #[derive(Clone, Copy, Debug, PartialEq, Eq)]
 enum Lwt {
     Neither,
-    /// serial_consistency is set, which alone must NOT switch LWT routing on
+    /// serial_consistency = SERIAL is set, which alone must NOT switch LWT routing on
     NeitherWithSerialConsistencyField,
+    /// serial_consistency = LOCAL_SERIAL, not LWT-routed
+    NeitherWithLocalSerialField,
+    /// confirmed LWT, serial consistency not set
     Flag,
+    /// confirmed LWT with serial consistency SERIAL / LOCAL_SERIAL (what an LWT statement normally carries)
+    FlagSerial,
+    FlagLocalSerial,
     ConsistencySerial,
     ConsistencyLocalSerial,
+    /// consistency LOCAL_SERIAL and serial consistency LOCAL_SERIAL
+    ConsistencyLocalSerialBoth,
 }
 impl Lwt {
-    const ALL: [Lwt; 5] = [Lwt::Neither, Lwt::Flag, Lwt::ConsistencySerial, Lwt::ConsistencyLocalSerial, Lwt::NeitherWithSerialConsistencyField];
+    const ALL: [Lwt; 9] = [Lwt::Neither, Lwt::Flag, Lwt::FlagSerial, Lwt::FlagLocalSerial, Lwt::ConsistencySerial, Lwt::ConsistencyLocalSerial, Lwt::ConsistencyLocalSerialBoth, Lwt::NeitherWithSerialConsistencyField, Lwt::NeitherWithLocalSerialField];
+    /// the kinds of the config leg (reduced node-state set)
+    const CONFIG: [Lwt; 5] = [Lwt::Neither, Lwt::Flag, Lwt::ConsistencySerial, Lwt::ConsistencyLocalSerial, Lwt::NeitherWithSerialConsistencyField];
+    /// the kinds of the structure leg (FULL node-state enumeration): LWT routing x serial consistency {none, SERIAL, LOCAL_SERIAL}
+    const STRUCTURE: [Lwt; 4] = [Lwt::Neither, Lwt::Flag, Lwt::FlagSerial, Lwt::FlagLocalSerial];
     fn routes_as_lwt(self) -> bool {
-        matches!(self, Lwt::Flag | Lwt::ConsistencySerial | Lwt::ConsistencyLocalSerial)
+        matches!(self, Lwt::Flag | Lwt::FlagSerial | Lwt::FlagLocalSerial | Lwt::ConsistencySerial | Lwt::ConsistencyLocalSerial | Lwt::ConsistencyLocalSerialBoth)
+    }
+    /// kinds other than `Neither` / `Flag` (they differ from those two only in the consistency / serial-consistency fields): crossed with every strategy but one query token
+    fn serial_field_variant(self) -> bool {
+        !matches!(self, Lwt::Neither | Lwt::Flag)
     }
     fn name(self) -> &'static str {
         match self {
             Lwt::Neither => "neither",
             Lwt::NeitherWithSerialConsistencyField => "serial-consistency-field-only",
+            Lwt::NeitherWithLocalSerialField => "local-serial-field-only",
             Lwt::Flag => "lwt-flag",
+            Lwt::FlagSerial => "lwt-flag+serial",
+            Lwt::FlagLocalSerial => "lwt-flag+local-serial",
             Lwt::ConsistencySerial => "consistency-serial",
             Lwt::ConsistencyLocalSerial => "consistency-local-serial",
+            Lwt::ConsistencyLocalSerialBoth => "consistency-local-serial+local-serial",
         }
     }
     fn from_name(s: &str) -> Lwt {
@@ -626,9 +646,22 @@ fn run_case(env: &Env, tally: &mut Tally, cl: &Cluster, tablet: Option<(&Cluster
     match req.lwt {
         Lwt::Neither => {}
         Lwt::NeitherWithSerialConsistencyField => ri.serial_consistency = Some(SerialConsistency::Serial),
+        Lwt::NeitherWithLocalSerialField => ri.serial_consistency = Some(SerialConsistency::LocalSerial),
         Lwt::Flag => ri.is_confirmed_lwt = true,
+        Lwt::FlagSerial => {
+            ri.is_confirmed_lwt = true;
+            ri.serial_consistency = Some(SerialConsistency::Serial);
+        }
+        Lwt::FlagLocalSerial => {
+            ri.is_confirmed_lwt = true;
+            ri.serial_consistency = Some(SerialConsistency::LocalSerial);
+        }
         Lwt::ConsistencySerial => ri.consistency = Consistency::Serial,
         Lwt::ConsistencyLocalSerial => ri.consistency = Consistency::LocalSerial,
+        Lwt::ConsistencyLocalSerialBoth => {
+            ri.consistency = Consistency::LocalSerial;
+            ri.serial_consistency = Some(SerialConsistency::LocalSerial);
+        }
     }
     // the session-level preference: what the policy inherits when it has none of its own; when the
     // policy has its own, the session-level value is set to something else to prove it is overridden
@@ -905,8 +938,9 @@ fn run_cluster(env: &Env, c: &Concrete, absent_dc: &str, topo_rank: u64, legs: &
                 for &lwt in &variant.lwt {
                     let mut reqs: Vec<Request> = vec![Request { target: Target::Nothing, lwt }, Request { target: Target::UnknownKeyspace(tokens[0]), lwt }, Request { target: Target::TokenWithoutTable(tokens[0]), lwt }];
                     if cfg.token_aware {
+                        let toks: &[i64] = if lwt.serial_field_variant() { &tokens[..1] } else { &tokens };
                         for si in 0..cl.space.strategies.len() {
-                            for t in &tokens {
+                            for t in toks {
                                 reqs.push(Request { target: Target::Known(si, *t), lwt });
                             }
                         }
@@ -1087,16 +1121,19 @@ fn main() {
     // leg "config":    a few node-state assignments x every policy switch x every LWT kind
     let v = |inherited: bool, shuffle: bool, token_aware: bool, route: Route, latency_aware: bool, lwt: &[Lwt], midplan: bool| Variant { inherited, shuffle, token_aware, route, latency_aware, lwt: lwt.to_vec(), midplan };
     let plain_and_lwt = [Lwt::Neither, Lwt::Flag];
-    let structure = Dims { all_states: true, variants: vec![v(false, true, true, Route::Direct, false, &plain_and_lwt, thorough)], all_tokens: thorough, random_states: 0 };
+    let structure = Dims { all_states: true, variants: vec![v(false, true, true, Route::Direct, false, &Lwt::STRUCTURE, thorough)], all_tokens: thorough, random_states: 0 };
     let mut config_variants = Vec::new();
     for inherited in [false, true] {
         for shuffle in [true, false] {
             for token_aware in [true, false] {
-                config_variants.push(v(inherited, shuffle, token_aware, Route::Direct, false, &Lwt::ALL, false));
+                config_variants.push(v(inherited, shuffle, token_aware, Route::Direct, false, &Lwt::CONFIG, false));
             }
         }
     }
     // alternative entry points / builder histories / latency awareness without any penalised node / mid-plan state change
+    // serial-consistency field alone / combined with LOCAL_SERIAL consistency / with the LWT flag under an inherited preference
+    config_variants.push(v(false, true, true, Route::Direct, false, &[Lwt::ConsistencyLocalSerialBoth, Lwt::NeitherWithLocalSerialField], false));
+    config_variants.push(v(true, true, true, Route::Direct, false, &[Lwt::FlagLocalSerial, Lwt::FlagSerial], false));
     config_variants.push(v(false, true, true, Route::Overwritten, false, &plain_and_lwt, false));
     config_variants.push(v(false, false, false, Route::Overwritten, false, &plain_and_lwt, false));
     config_variants.push(v(false, true, true, Route::ClonedBuilder, false, &plain_and_lwt, false));
@@ -1197,7 +1234,7 @@ fn main() {
         *by_len.entry(s.len()).or_default() += 1;
     }
     r.note("distinct_signatures_by_plan_length", json!(by_len.iter().map(|(k, v)| (k.to_string(), *v)).collect::<BTreeMap<String, u64>>()));
-    r.set_rule("E-ENUM. evaluations = plans = (topology, node-state assignment, policy configuration, request) cases; each: Plan::new(..) to exhaustion (LWT-routed ones constructed repeatedly), fallback() alone, pick() alone, judged by the set/group oracle. Leg structure: ALL {disabled,down,up}^n x every preference (none, each DC, each DC+rack incl. a non-existent rack, a DC absent from the ring) x failover on/off x {plain, LWT} x requests {no token, token without table, unknown keyspace, every strategy of the family x query tokens} on token-aware policies. Leg config: {all up, all down, all disabled, each single node down / disabled} x the same preferences x failover x inherited/own preference x shuffle on/off x token-aware on/off x 5 LWT kinds; plus, x {plain, LWT}: policies obtained through other entry points (builder with contradicting setters called first, clone of an already used builder, DefaultPolicyBuilder::default(), DefaultPolicy::default()), latency awareness switched on with equal latencies reported for every node (nobody penalised), and the mid-plan history (after the first target its node goes down and every other enabled node flips up<->down: the rest of the plan is judged against the new states; thorough: also on the structure leg). Also two clusters with an empty ring. Group letters: R/L/M live replica in preferred rack / preferred DC / remote, r/l/m live non-replica, d down. Plus the repo's pinned 7-node cluster under few + seeded random (SAMPLED) node-state assignments. distinct_nontrivial = plans with >= 3 targets from >= 2 groups.");
+    r.set_rule("E-ENUM. evaluations = plans = (topology, node-state assignment, policy configuration, request) cases; each: Plan::new(..) to exhaustion (LWT-routed ones constructed repeatedly), fallback() alone, pick() alone, judged by the set/group oracle. Leg structure: ALL {disabled,down,up}^n x every preference (none, each DC, each DC+rack incl. a non-existent rack, a DC absent from the ring) x failover on/off x {plain, LWT flag} x serial consistency {none, SERIAL, LOCAL_SERIAL} x requests {no token, token without table, unknown keyspace, every strategy of the family x query tokens} on token-aware policies. Leg config: {all up, all down, all disabled, each single node down / disabled} x the same preferences x failover x inherited/own preference x shuffle on/off x token-aware on/off x 5 LWT kinds, plus the serial-consistency field alone / combined with LOCAL_SERIAL consistency / with the LWT flag under an inherited preference; plus, x {plain, LWT}: policies obtained through other entry points (builder with contradicting setters called first, clone of an already used builder, DefaultPolicyBuilder::default(), DefaultPolicy::default()), latency awareness switched on with equal latencies reported for every node (nobody penalised), and the mid-plan history (after the first target its node goes down and every other enabled node flips up<->down: the rest of the plan is judged against the new states; thorough: also on the structure leg). Also two clusters with an empty ring. Group letters: R/L/M live replica in preferred rack / preferred DC / remote, r/l/m live non-replica, d down. Plus the repo's pinned 7-node cluster under few + seeded random (SAMPLED) node-state assignments. distinct_nontrivial = plans with >= 3 targets from >= 2 groups.");
     r.set_exhaustive(true);
     r.assume("the driver's thread RNG (round-robin rotation, replica shuffle, random first replica) is not owned: SAMPLED dimension, every assertion is a set/group property that holds for each of its answers; LWT replica order is asserted exactly because it must not depend on it");
     r.assume("nodes have no sharder (no connection), so every target's shard is 0 / unspecified: 'named twice' = same node twice; fallback() is additionally checked under the plan's own target equality");
